@@ -164,6 +164,12 @@ LAYOUTS["the paragraph that sorts first is last and ends without final newline (
     F_("M", ["m"]), blank(), F_("B", ["b"], final_newline=False)]
 LAYOUTS["the paragraph that sorts first is last and ends in a comment without final newline"] = [
     F_("M", ["m"]), blank(), F_("B", ["b"]), {"type": "comment", "tokens": [("COMMENT", symstr.mk([("lit", "#"), ("atom", "tail", "line")]))]}]
+LAYOUTS["a field without value between other fields, one followed by a comment"] = [
+    F_("S", ["s"]),
+    {"type": "field", "key": "E", "lines": [], "tokens": [("KEY", symstr.lit("E")), ("COLON", symstr.lit(":")), ("NEWLINE", symstr.lit("\n"))]},
+    F_("T", ["t"]),
+    {"type": "field", "key": "G", "lines": [], "tokens": [("KEY", symstr.lit("G")), ("COLON", symstr.lit(":")), ("WHITESPACE", symstr.lit(" ")), ("NEWLINE", symstr.lit("\n"))]},
+    Cm("after-g"), F_("U", ["u"])]
 SETTINGS = []
 for ind in ("s1", "s4", "fnl"):
     for iel in (False, True):
@@ -289,6 +295,7 @@ def run(tier):
             C.ob("C07/formatter-multiline-output", lname, not bad, "with a value formatter whose output has several lines: " + (bad[0] if bad else ""), F.fn(P + "Entry::wrap_and_sort")["sp"])
     C.floor("C07/runs", n, 30, "layout x settings combinations")
     check_control_comparator(F, C)
+    check_stable_sorts(F, C)
     C.assumptions += ["format_value (control-file formatter) path not covered here", "token text lengths are unknown: length-dependent layout decisions are explored both ways",
                       "bounded: 3 layouts x settings matrix; comparators depend on field names only"]
     return C.finish("wrap_and_sort is interpreted on the parser's trees for symbolic documents over the settings matrix; every outcome must parse strictly, keep paragraphs/fields/value lines (in the requested order) and comments in front of the same field, "
@@ -365,3 +372,24 @@ def check_control_comparator(F, C):
     C.ob("C07/control-comparator", "binary stanzas sort by package name", res[("binary aaa", "binary bbb")] == {"Less"}, "cmp(binary aaa, binary bbb) = %s" % sorted(res[("binary aaa", "binary bbb")]), f["sp"])
     C.ob("C07/control-comparator", "source stanzas sort by source name", res[("source aaa", "source bbb")] == {"Less"}, "cmp(source aaa, source bbb) = %s" % sorted(res[("source aaa", "source bbb")]), f["sp"])
     C.floor("C07/control-comparator", n, 25, "stanza pairs compared")
+
+
+def check_stable_sorts(F, C):
+    """'keeps the original order when none is requested / among equal elements': every sort reachable from the
+    reformatting entry points must be a stable one (the interpretation models sorts as stable; an unstable sort only
+    shows on slices longer than the insertion-sort threshold, which no bounded layout reaches)"""
+    roots = [k for k in F.fns if k.endswith("::wrap_and_sort") and (k.startswith("deb822_lossless::lossless::") or k.startswith("debian_control::lossless::control::"))]
+    C.floor("C07/stable-sort/entry-points", len(roots), 5, "wrap_and_sort entry points")
+    g = facts.build_callgraph(F)
+    seen, parent = facts.reachable(g, roots)
+    nsort = 0
+    for k in sorted(seen):
+        f = F.fns[k]
+        for b in f.get("mir", []) or []:
+            if b.get("t") == "Call":
+                d = b.get("inst") or b.get("def") or ""
+                if "::sort" in d and "slice" in d:
+                    nsort += 1
+                    C.ob("C07/stable-sort", "%s calls %s" % (k, d.rsplit("::", 1)[-1]), "sort_unstable" not in d,
+                         "an unstable sort may reorder fields/paragraphs that compare equal (duplicate names, comparators that look at part of the name)", f.get("sp", ""))
+    C.floor("C07/stable-sort", nsort, 2, "sort calls reachable from wrap_and_sort")
